@@ -96,3 +96,129 @@ package estargz
 //@ func (e *TOCEntry) isDataType
 //@   props C02
 //@   ensures[C02] result <==> (e.Type == "reg" || e.Type == "chunk")
+
+// ---- C14: prioritized files first, one landmark, nothing lost (build.go) ----
+// cleanName mirrors cleanEntryName over the uninterpreted path.Clean / strings.TrimPrefix. ASSUMED axioms: cleaning is
+// idempotent and does not lengthen; a cleaned non-empty name does not end in "/"; path.Split of such a name leaves a
+// non-empty file part.
+//@ pure cleanName(s string) string = trimPrefix(pclean("/" + s), "/")
+//@ axiom[C14,C04] forall s string :: cleanName(cleanName(s)) == cleanName(s) && len(cleanName(s)) <= len(s)
+//@ axiom[C14,C04] forall s string :: cleanName(s) == "" || !hasSuffix(cleanName(s), "/")
+//@ axiom[C14,C04] forall s string :: len(trimPrefix(pclean("/" + s), "/")) <= len(s)
+//@ func path.Split
+//@   trusted
+//@   ensures len(dir) + len(file) == len(path) && (dir == "" || hasSuffix(dir, "/")) && (path != "" && !hasSuffix(path, "/") ==> len(file) >= 1)
+//@ pure wfTF(f *tarFile) bool = (f.index != nil ==> (forall k string :: k in f.index ==> f.index[k] != nil && f.index[k].header != nil && cleanName(f.index[k].header.Name) == k)) && (forall j int :: 0 <= j && j < len(f.stream) ==> f.stream[j] != nil && f.stream[j].header != nil)
+// two tarFiles share neither their index map nor the array behind their stream (an append to one cannot reach the other)
+//@ pure sepTF(a *tarFile, b *tarFile) bool = a != b && (b.index == nil || b.index != a.index) && (len(a.stream) == 0 || ref(a.stream) != ref(b.stream))
+//@ func (f *tarFile) add
+//@   props C14
+//@   requires wfTF(f) && e != nil && e.header != nil
+//@   modifies f.index, f.stream, f.index[*], backing(f.stream)
+//@   ensures[C14] wfTF(f) && f.index != nil && cleanName(e.header.Name) in f.index && f.index[cleanName(e.header.Name)] == e
+//@   ensures[C14] len(f.stream) == old(len(f.stream)) + 1 && f.stream[len(f.stream)-1] == e
+//@   ensures[C14] forall j int :: 0 <= j && j < old(len(f.stream)) ==> f.stream[j] == old(f.stream[j])
+//@   ensures[C14] forall k string :: k != cleanName(e.header.Name) && old(f.index != nil && k in f.index) ==> k in f.index && f.index[k] == old(f.index[k])
+//@   ensures[C14] (old(f.index) != nil ==> f.index == old(f.index)) && (old(f.index) == nil ==> fresh(f.index))
+//@   ensures[C14] ref(f.stream) == old(ref(f.stream)) || fresh(ref(f.stream))
+//@ func (f *tarFile) get
+//@   props C14
+//@   requires wfTF(f)
+//@   modifies nothing
+//@   ensures[C14] ok <==> (f.index != nil && cleanName(name) in f.index)
+//@   ensures[C14] ok ==> e == f.index[cleanName(name)] && e != nil && e.header != nil
+//@ func (f *tarFile) dump
+//@   props C14
+//@   requires wfTF(f)
+//@   modifies nothing
+//@   ensures[C14] len(skip) == 0 ==> result == f.stream
+//@   ensures[C14] len(result) <= len(f.stream) && (forall j int :: 0 <= j && j < len(result) ==> result[j] != nil && result[j].header != nil)
+//@   loop 0 invariant[C14] len(out) <= max(rangeidx + 1, 0) && (forall j int :: 0 <= j && j < len(out) ==> out[j] != nil && out[j].header != nil)
+//@   loop 0 invariant[C14] forall j int :: 0 <= j && j < len(f.stream) ==> f.stream[j] != nil && f.stream[j].header != nil
+//@   loop 0 invariant[C14] cap(out) > 0 ==> fresh(ref(out)) && ref(out) != ref(f.stream)
+//@   loop 0 invariant[C14] forall j int :: 0 <= j && j < len(out) ==> !(cleanName(out[j].header.Name) in skip)
+//@   loop 0 step[C14] (cleanName(e.header.Name) in skip) ? len(out) == prev(len(out)) : (len(out) == prev(len(out)) + 1 && out[len(out)-1] == e)
+//@   ensures[C14] len(skip) != 0 ==> (forall j int :: 0 <= j && j < len(result) ==> !(cleanName(result[j].header.Name) in skip))
+
+// moveRec: everything recorded in `picked` has been appended to `out` (so the final dump of the input minus `picked`
+// loses nothing), also on the error returns; the input is only read; the recursion on the parent directory terminates
+// (shorter cleaned name); the recursion on a hardlink target has no measure.
+//@ pure pickedInOut(out *tarFile, picked map[string]struct{}) bool = forall k string :: k in picked ==> (out.index != nil && k in out.index)
+//@ func moveRec
+//@   props C14,C04
+//@   decreases len(cleanName(name))
+//@   requires in != nil && out != nil && picked != nil && wfTF(in) && wfTF(out) && pickedInOut(out, picked) && sepTF(in, out)
+//@   modifies out.index, out.stream, out.index[*], backing(out.stream), picked[*]
+//@   ensures[C14] wfTF(out)
+//@   ensures[C14] pickedInOut(out, picked)
+//@   ensures[C14] wfTF(in)
+//@   ensures[C14] sepTF(in, out)
+//@   ensures[C14] (old(out.index) != nil ==> out.index == old(out.index)) && (old(out.index) == nil ==> out.index == nil || fresh(out.index))
+//@   ensures[C14] ref(out.stream) == old(ref(out.stream)) || fresh(ref(out.stream))
+
+// importTar: an input entry whose cleaned name is a landmark is dropped (the builder adds its own single landmark)
+//@ func importTar
+//@   props C14
+//@   requires in != nil
+//@   assume after "tf := &tarFile{}" : wfTF(tf)
+//@   loop 0 invariant[C14] tf != nil && wfTF(tf) && fresh(tf)
+//@   ensures[C14] err == nil ==> result0 != nil && wfTF(result0) && fresh(result0)
+//@   assert[C14] before "if _, ok := tf.get(h.Name); ok {" : h != nil && cleanName(h.Name) != PrefetchLandmark && cleanName(h.Name) != NoPrefetchLandmark
+
+// sortEntries: after the prioritized entries exactly one landmark entry is appended -- the no-prefetch landmark iff the
+// list is empty -- and the result is that prefix followed by the remaining input entries
+//@ func sortEntries
+//@   props C14
+//@   requires in != nil
+//@   loop 0 invariant[C14] sorted != nil && intar != nil && picked != nil && wfTF(sorted) && wfTF(intar) && pickedInOut(sorted, picked) && sepTF(intar, sorted)
+//@   assert[C14] before "return append(sorted.dump(nil), intar.dump(picked)...), nil" : len(sorted.stream) >= 1 && sorted.stream[len(sorted.stream)-1].header.Name == (len(prioritized) == 0 ? NoPrefetchLandmark : PrefetchLandmark)
+//@   assert[C14] before "return append(sorted.dump(nil), intar.dump(picked)...), nil" : pickedInOut(sorted, picked) && wfTF(intar)
+//@ func (f *tarFile) remove
+//@   props C14
+//@   requires wfTF(f)
+//@   modifies f.index[*], f.stream
+//@   loop 0 invariant[C14] (forall j int :: 0 <= j && j < len(filtered) ==> filtered[j] != nil && filtered[j].header != nil) && (forall j int :: 0 <= j && j < len(f.stream) ==> f.stream[j] != nil && f.stream[j].header != nil) && (cap(filtered) > 0 ==> fresh(ref(filtered)) && ref(filtered) != ref(f.stream))
+//@   ensures[C14] wfTF(f)
+//@ func newCountReadSeeker
+//@   props C14
+//@   ensures[C14] err == nil && result0 != nil && result0.cPos != nil
+
+// ---- C03: TOC bookkeeping of the writer (estargz.go appendTar) ----
+// The byte counters are advanced by the compressor / tar writer that hold the Writer behind io.Writer values, i.e. by
+// code the verifier does not follow: they are declared volatile (may grow at any call that leaves the module), and
+// every module function that stores to them is checked to only grow them.
+//@ type countWriter
+//@   volatile[C03] n : self.n >= old(self.n)
+//@ type countWriteFlusher
+//@   volatile[C03] n : self.n >= old(self.n)
+//@ type Writer
+//@   volatile[C03] gz : true
+//@ pure wfW(w *Writer) bool = w.cw != nil && w.uncompressedCounter != nil && w.toc != nil && w.cw.n >= 0 && w.uncompressedCounter.n >= 0 && (forall j int :: 0 <= j && j < len(w.toc.Entries) ==> w.toc.Entries[j] != nil && 0 <= w.toc.Entries[j].Offset && w.toc.Entries[j].Offset <= w.cw.n && w.toc.Entries[j].InnerOffset >= 0)
+// appendTar: every chunk entry records an offset that is a position already reached in the output (0 <= Offset <= bytes
+// written), a non-negative inner offset, and the chunks of one file tile it: ChunkOffset is the number of payload bytes
+// recorded before it, each iteration records a non-empty chunk, only the last one leaves ChunkSize unset, and the loop
+// ends exactly at the file size. An entry that must open its own stream (landmarks) starts at inner offset 0 of a new one.
+//@ func (w *Writer) appendTar
+//@   props C03
+//@   requires wfW(w) && w.diffHash != nil && w.compressor != nil && r != nil
+//@   ensures[C03] wfW(w)
+//@   loop 0 invariant[C03] wfW(w) && 0 <= prevOffset && prevOffset <= w.cw.n && 0 <= prevOffsetUncompressed && prevOffsetUncompressed <= w.uncompressedCounter.n
+//@   loop 2 invariant[C03] wfW(w) && 0 <= prevOffset && prevOffset <= w.cw.n && 0 <= prevOffsetUncompressed && prevOffsetUncompressed <= w.uncompressedCounter.n
+//@   loop 2 invariant[C03] 0 <= written && written <= totalSize && ent != nil && ent.InnerOffset == 0 && (forall j int :: 0 <= j && j < len(w.toc.Entries) ==> w.toc.Entries[j] != ent)
+//@   loop 2 decreases totalSize - written
+//@   loop 2 step[C03] len(w.toc.Entries) == prev(len(w.toc.Entries)) + 1 && w.toc.Entries[len(w.toc.Entries)-1].ChunkOffset == prev(written) && written > prev(written) && (written < totalSize ==> w.toc.Entries[len(w.toc.Entries)-1].ChunkSize == written - prev(written))
+//@   assert[C03] before "ent.ChunkOffset = written" : 0 <= ent.Offset
+//@   assert[C03] before "ent.ChunkOffset = written" : ent.Offset <= w.cw.n
+//@   assert[C03] before "ent.ChunkOffset = written" : ent.InnerOffset >= 0
+//@   assert[C03] before "ent.ChunkOffset = written" : ent.Offset == prevOffset
+//@   assert[C03] before "ent.ChunkOffset = written" : needsOpenGz(w, ent) ==> w.gz == nil && ent.InnerOffset == 0 && ent.Offset == w.cw.n
+// the counters only grow: Write adds the (non-negative) number of bytes the underlying writer accepted. int64
+// overflow of a byte counter (2^63 bytes through one writer) is not modelled (arith math).
+//@ func (cw *countWriter) Write
+//@   props C03
+//@   arith math
+//@   requires cw.w != nil
+//@ func (wc *countWriteFlusher) Write
+//@   props C03
+//@   arith math
+//@   requires wc.WriteCloser != nil
